@@ -7,7 +7,7 @@
           5 records (content, order)   6 session reference -> record map
           7 notifications   8 record sizes (BER length)   9 record counter *)
 From Coq Require Import List ZArith Bool.
-From Verif Require Import Common.Outcome Common.Bytes Charging.Servers Charging.Chf Charging.RecordBer.
+From Verif Require Import Common.Outcome Common.Bytes Charging.Servers Charging.Chf Charging.HistoryProofs Charging.RecordBer.
 Import ListNotations.
 Open Scope Z_scope.
 
@@ -109,6 +109,11 @@ Fixpoint run_steps (id k : Z) (w : world) (steps : list (op * obs)) : list (Z * 
     | codes => map (fun c => (id, k, c)) codes
     end
   end.
+
+(* how many of the cases satisfy the hypotheses of C01_history (and how many there are) *)
+Definition in_domain (cs : list hcase) : Z * Z :=
+  (Z.of_nat (length (filter (fun c => history_okb rsize usize (mkWorld (hc_db c) [] (hc_lrsn c) [] []) (map fst (hc_steps c))) cs)),
+   Z.of_nat (length cs)).
 
 Definition run_hist (cs : list hcase) : list (Z * Z * Z) :=
   flat_map (fun c => run_steps (hc_id c) 0 (mkWorld (hc_db c) [] (hc_lrsn c) [] []) (hc_steps c)) cs.
